@@ -213,4 +213,26 @@ def runJ : List JTok → JSt → List JTok → Option JSt
   | .deferRUnlockAll :: r, s, d => runJ r s (.deferRUnlockAll :: d)
   | .unknown :: _, _, _ => none
 
+/-! ### the push connection
+
+    `PushMetrics` dials a peer and hands the connection to `writeSocketMetrics`, which writes each
+    line with the metric's read lock held.  A write to a peer that accepted and stopped reading
+    returns only when a deadline set on the connection expires; so every call that can write must
+    come after a call that sets one.  The calls are regenerated from the source, in order. -/
+
+/-- calls on the connection that do not write to it -/
+def connQuiet (c : String) : Bool :=
+  c == "Dial" || c == "DialTimeout" || c == "DialContext" || c == "Close" || c == "SetDeadline" || c == "SetWriteDeadline" || c == "SetReadDeadline"
+
+/-- calls that bound every later write -/
+def connBounds (c : String) : Bool := c == "SetDeadline" || c == "SetWriteDeadline"
+
+/-- `bounded` = a deadline has been set already -/
+def deadlineBeforeWrites : Bool → List String → Bool
+  | _, [] => true
+  | bounded, c :: r =>
+      if connBounds c then deadlineBeforeWrites true r
+      else if connQuiet c then deadlineBeforeWrites bounded r
+      else bounded && deadlineBeforeWrites bounded r
+
 end MtailVerif.ExportLocks
